@@ -62,8 +62,11 @@ def run(prop, seed, tier):
         sc.write('inc/types.prophy', 'typedef u32 TT;\n')
         sc.write('src/a/types.prophy', 'typedef u16 TT;\n')
         half = len(structs) // 2
-        sc.write('src/a/x.prophy', '#include "common.prophy"\n' + ''.join(t for t, _ in structs[:half]))
-        sc.write('src/b/y.prophy', '#include "common.prophy"\n#include "types.prophy"\nstruct Y { u8 a; TT t; };\n' + ''.join(t for t, _ in structs[half:]))
+        # the two independent inputs use the same type name (HH) for different types: nothing learnt about one file may
+        # leak into the other's output
+        sc.write('src/a/x.prophy', '#include "common.prophy"\ntypedef u64 HH;\nstruct XH { u8 a; HH* h; HH k<2>; };\n' + ''.join(t for t, _ in structs[:half]))
+        sc.write('src/b/y.prophy', '#include "common.prophy"\n#include "types.prophy"\ntypedef u32 HH;\nstruct YH { u8 a; HH* h; HH k<2>; };\n'
+                                   'struct Y { u8 a; TT t; };\n' + ''.join(t for t, _ in structs[half:]))
         sc.write('isar/frame.xml', ISAR)
         sc.write('isar/frame.patch', PATCH)
         x, y = sc.path('src/a/x.prophy'), sc.path('src/b/y.prophy')
